@@ -249,7 +249,7 @@ def import_rules(fx, rep, tier, cfg):
     c01.check_crate(fx, sub, fx.crate('zlink_core', cfg), cfg)
     n = 0
     for i in sub.insts:
-        if i.rule == 'R01.2' and 'a-buffered-frames-first' in i.key:
+        if (i.rule == 'R01.2' and 'a-buffered-frames-first' in i.key) or i.rule == 'R01.6':
             n += 1
             (rep.ok if i.ok else rep.bad)('R10.3', i.key, i.where, i.msg if i.ok else i.msg + ' - calls pipelined behind a streaming call would wait for new bytes', i.detail)
     if not n:
